@@ -73,6 +73,15 @@ pub fn run(seed: u64, tier: Tier, verif_dir: &str) -> i32 {
             Ok(g) => g,
             Err(_) => continue,
         };
+        if g.number_of_nodes() > 400 {
+            continue; // the huge cases belong to the stub engine (all-pairs output would not fit in memory here)
+        }
+        if let Ok(snap) = real::Snap::of(&g) {
+            let hop = crate::oracle::dist::DistOracle::new(&snap, true);
+            if algo::sigma_max(&hop) > 200.0 {
+                continue; // exploding path sets
+            }
+        }
         let weighted = !g.get_all_edges().is_empty() && g.edges_have_weight() && g.get_all_edges().iter().all(|e| e.weight > 0.0);
         // heavy path sets would dominate the run time; the stub engine covers them
         let one = rayon::ThreadPoolBuilder::new().num_threads(1).build().unwrap();
